@@ -5,6 +5,9 @@ CONSTANTS
   MaxRuns = 2
   Variant = "orig"
   Kinds <- AllKinds
+  Forms <- QuickForms
+  SubRuns <- Yes
+  Founds <- QuickFounds
 INVARIANT TypeOK
 INVARIANT Recoverable
 PROPERTY DeleteGuard
